@@ -94,13 +94,14 @@ def _parse_pdb_atom_line(line, lit):
     # 77 - 78        LString(2)    element      Element symbol, right-justified.
     # 79 - 80        LString(2)    charge       Charge  on the atom.
 
-    # Get element symbol from position 77:78 in pdb format
-    symbol = line[76:78].strip()
+    # Get element symbol from position 77:78 in pdb format.
+    # It is usually written in upper case, e.g. CL.
+    symbol = line[76:78].strip().title()
+    atname = line[12:16].strip()
     if len(symbol) > 0:
         atnum = sym2num.get(symbol)
     else:
         # If not present, guess it from position 13:16 (atom name)
-        atname = line[12:16].strip()
         atnum = sym2num.get(atname, sym2num.get(atname[:2].title(), sym2num.get(atname[0], None)))
         warn(
             LoadWarning("Using the atom name in the PDB file to guess the chemical element.", lit),
